@@ -55,5 +55,10 @@ CHECKS = {
   "note": "Trusted: weights transcribed from docs/cmd.md (vlib/oracles/weights.py); values compared at print resolution; __ambiguous/__no_feature accepted between #reads and #records. One recorded known finding (multi-locus ties counted once per locus) is recognised only when the printed value equals exactly what that mechanism yields.",
   "technique": "offline conservation checker over output tables vs reported assignments (documented-weight reference model) + hooked counter increment log",
  },
+ "C09": {
+  "text": "CLI runs in every --read_group mode (tag, read_id, file, file_name) x counts formats x PYTHONHASHSEED x threads on worlds with 2-12 group names whose set order differs from sorted order, ~6% ungroupable reads and a group absent from one chromosome; every (feature, group) cell of the matrix and linear tables is compared with the documented weights restricted to the reads the generator put into that group, group sums with the ungrouped tables, matrix with linear triples, grouped TPM with rescaled columns; a run that aborts is a violation. Sampled worlds.",
+  "note": "Trusted: generator's read->group truth and vlib/oracles/weights.py; worlds without multi-mapped reads (keeps the recorded C02 finding out of this check).",
+  "technique": "offline partition/consistency checker over grouped output tables vs generator truth",
+ },
 }
 NOT_APPLICABLE = {}
